@@ -197,6 +197,16 @@ CHECKS = {
         "Severities and accepted lines follow the implementation (CLASSES / CONSEQ tables in checks/c07.py); programs are limited to fmodel's constructs.",
         "DESIGN.md §3 C07",
     ),
+    "C11": (
+        "exploration",
+        "Hypothesis grammar-based generation of declarations / documented procedures / call sites with known ground truth; hover parsed back by a normaliser (round trip), signature-help oracle",
+        "Drawn declarations (type x selector incl. nested parentheses x attribute order x entity-level dims/len x initialiser x documentation placement; "
+        "gfortran-validated on a sample) are hovered and the code block is parsed back into (type, selector, attribute set, name, value, documentation) and "
+        "compared with the generated declaration; procedure hovers must list the dummies and their declarations in order with their documentation; "
+        "signatureHelp at every argument position (positional, plain and keyword calls) must mark the right parameter.",
+        "Hover text is compared after upper-casing and removing blanks; documentation styles may be mixed between neighbouring entities (classified).",
+        "DESIGN.md §3 C11",
+    ),
 }
 
 NOT_YET = "check not built yet in this session (work in progress; see DESIGN.md §3 for the planned generator and oracle)"
